@@ -14,7 +14,7 @@ EncJudge(ln, want, d) ==
        THEN ln.st = "error" /\ ln.calls = 0
      ELSE IF IsStr(Kind(want[1])) /\ d.st = "nedata"      \* a string head announcing a payload that is not there
        THEN ln.st = "nedata" /\ ln.calls = 0 /\ RequiredOK(ln.req, Len(want), d.full)
-     ELSE /\ ln.st = "fin" /\ ln.calls = 1 /\ ln.read = Len(want)      \* consumes exactly the bytes written
+     ELSE /\ ln.st = "fin" /\ ln.calls = 1 /\ ln.ctx /\ ln.read = Len(want)      \* consumes exactly the bytes written
           /\ ln.slot = d.slot                                          \* callback of the matching kind
           /\ CASE ln.f = "half" -> (IF SingleIsNaN(ln.a) THEN SingleIsNaN(ln.arg) ELSE ln.arg = ln.a)   \* identical value
                [] ln.f = "single" -> (IF SingleIsNaN(ln.a) THEN SingleIsNaN(ln.arg) ELSE ln.arg = ln.a)
